@@ -46,7 +46,26 @@ JWE_ENC = list(rjwe.RFC_ENCS)
 JWE_RECOMMENDED = ["RSA-OAEP", "A128KW", "A256KW", "dir", "ECDH-ES", "ECDH-ES+A128KW", "ECDH-ES+A256KW"] + JWE_ENC + ["DEF"]
 DRAFT_ALG = list(rjwe.DRAFT_ALGS)
 DRAFT_ENC = ["C20P", "XC20P"]
-UNKNOWN = ["HS257", "hs256", "none ", "", "RS-256", "A128KW ", "ECDH", "A128CBC", "DEFLATE", "dir+A128KW", "RSA-OAEP-384"]
+UNKNOWN = ["HS257", "hs256", "none ", "", "RS-256", "A128KW ", "ECDH", "A128CBC", "DEFLATE", "dir+A128KW", "RSA-OAEP-384",
+           # names an alias table, a case-folding or a whitespace-stripping lookup would map onto a real algorithm
+           "Ed25519", "Ed448", "ESP256", "ESP384", "ES256k", "eddsa", "EDDSA", "Hs256", " HS256", "HS256\n", "None", "NONE", "RS256 ", "ps256",
+           "a128kw", "Dir", "DIR", "ecdh-es", "ECDH-ES ", "RSA-OAEP-256 ", "rsa-oaep", "a128gcm", "A128GCM ", "A128CBC-HS256 ", "def", "Def"]
+
+
+def related_real(name, supported: list, default: str) -> str:
+    """the real algorithm the peer computes with when it labels its token with an unknown name: the one a sloppy lookup
+    would land on (so that such a lookup does not fail later for a cryptographic reason)"""
+    if not isinstance(name, str):
+        return default
+    folded = name.strip().lower()
+    for real in supported:
+        if real.lower() == folded:
+            return real
+    if folded in ("ed25519", "ed448") and "EdDSA" in supported:
+        return "EdDSA"
+    if folded.startswith("esp") and ("ES" + folded[3:]) in supported:
+        return "ES" + folded[3:]
+    return default
 NONSTR = [None, 7, True, ["HS256"], {"alg": "HS256"}, 1.5]
 
 _STATE = {"1pu": False, "chacha": False}      # draft registrations performed in *this process*
@@ -174,6 +193,10 @@ def gen_history(rng: Rng, tier: str) -> list:
                 enc = rng.pick(JWE_ENC[:3])      # 1PU key wrapping with a non CBC-HMAC enc is refused for another reason
             z = rng.pick([None, None, None, "DEF", "DEF", rng.pick(["ZIP", "GZ", 7])])
             d = {"op": op, "algs": algs, "enc": enc, "zip": z, "allow": gen_allow(rng, "jwe", algs + [enc] + ([z] if z else []))}
+        if not d["op"].endswith("general") and rng.chance(0.2):
+            # the key is resolved by a callable that itself uses joserfc with another allow-list (a signed key directory,
+            # a wrapped key store): the outer call's allow-list must be the one that decides
+            d["reentrant"] = rng.pick(["jws", "jwe"])
         ops.append(d)
     return ops
 
@@ -197,6 +220,11 @@ class Node:
             if self.jws_keys[a].kty == "oct":
                 self.jws_keys[a] = K.make_oct(rng.sub("jws-" + a), 32)
         self.jwe_keys = {}
+        dk = K.make_oct(rng.sub("decoy-jws"), 48)
+        self.decoy_jws = (rjws.make_compact(rjws.compact_json({"alg": "HS384"}), b"decoy", "HS384", dk), K.to_jose_fast(dk, True))
+        dk2 = K.make_oct(rng.sub("decoy-jwe"), 24)
+        self.decoy_jwe = (rjwe.build("compact", {"alg": "A192KW", "enc": "A192GCM"}, b"decoy", [rjwe.Rcpt("A192KW", dk2)], Rng("decoy")).ser,
+                          K.to_jose_fast(dk2, True))
         self.sender = K.make_ec(rng.sub("sender"), "P-256")
         self.shared = {
             "jws": [JWSRegistry(algorithms=copy.copy(l)) for l in SHARED["jws"]],
@@ -207,13 +235,30 @@ class Node:
     def jwe_key(self, alg, enc):
         k = (alg if isinstance(alg, str) else "?", enc if isinstance(enc, str) else "?")
         if k not in self.jwe_keys:
-            a = alg if isinstance(alg, str) and alg in rjwe.ALL_ALGS else "A128KW"
-            e = enc if isinstance(enc, str) and enc in rjwe.ENCS else "A128GCM"
+            a = alg if isinstance(alg, str) and alg in rjwe.ALL_ALGS else related_real(alg, list(rjwe.ALL_ALGS), "A128KW")
+            e = enc if isinstance(enc, str) and enc in rjwe.ENCS else related_real(enc, list(rjwe.ENCS), "A128GCM")
             if not JW.enc_ok(a, e):
                 e = "A128CBC-HS256"
             rkey, snd = JW.keys_for(self.rng.sub("jwe-%s-%s" % k), a, e, "P-256")
             self.jwe_keys[k] = (rkey, self.sender if snd is not None else None)
         return self.jwe_keys[k]
+
+
+def _reentrant(node: Node, key, how):
+    """key callable that makes a nested joserfc call under its own allow-list before answering"""
+    from joserfc import jws, jwe
+    if how is None:
+        return key
+
+    def resolve(obj, _key=key):
+        if how == "jws":
+            tok, k = node.decoy_jws
+            assert jws.deserialize_compact(tok, k, algorithms=["HS384"]).payload == b"decoy"
+        else:
+            tok, k = node.decoy_jwe
+            assert jwe.decrypt_compact(tok, k, algorithms=["A192KW", "A192GCM"]).plaintext == b"decoy"
+        return _key
+    return resolve
 
 
 def _kw(node: Node, allow: dict, family: str, r7797: bool = False) -> dict:
@@ -260,7 +305,7 @@ def _jws_token(node, alg, form, b64flag=True, payload=b'{"sub":"c05"}'):
         hdr["b64"] = False
         hdr["crit"] = ["b64"]
         payload = b"c05-unencoded"
-    real = alg if isinstance(alg, str) and alg in JWS_SUPPORTED else "HS256"
+    real = alg if isinstance(alg, str) and alg in JWS_SUPPORTED else related_real(alg, JWS_SUPPORTED, "HS256")
     key = node.jws_keys[real]
     text = rjws.compact_json(hdr)
     if form == "compact":
@@ -292,9 +337,10 @@ def execute_op(node: Node, d: dict, state: dict):
                 r7797 = op.startswith("7797.")
                 kw = _kw(node, allow, "jws", r7797)
                 a0 = algs[0]
-                real0 = a0 if isinstance(a0, str) and a0 in JWS_SUPPORTED else "HS256"
+                real0 = a0 if isinstance(a0, str) and a0 in JWS_SUPPORTED else related_real(a0, JWS_SUPPORTED, "HS256")
                 jkey = K.to_jose_fast(node.jws_keys[real0], True)
                 pub = K.to_jose_fast(node.jws_keys[real0] if node.jws_keys[real0].kty == "oct" else node.jws_keys[real0].public(), node.jws_keys[real0].kty == "oct")
+                jkey, pub = _reentrant(node, jkey, d.get("reentrant")), _reentrant(node, pub, d.get("reentrant"))
                 hdr7797 = {"alg": a0, "b64": False, "crit": ["b64"]}
                 if op == "jws.serialize_compact":
                     return "ok", None, jws.serialize_compact({"alg": a0}, b"c05", jkey, **kw)
@@ -307,7 +353,7 @@ def execute_op(node: Node, d: dict, state: dict):
                     from joserfc.jwk import KeySet
                     members, keys = [], []
                     for i, a in enumerate(algs):
-                        real = a if isinstance(a, str) and a in JWS_SUPPORTED else "HS256"
+                        real = a if isinstance(a, str) and a in JWS_SUPPORTED else related_real(a, JWS_SUPPORTED, "HS256")
                         members.append({"protected": {"alg": a, "kid": "k%d" % i}})
                         keys.append(K.to_jose_fast(node.jws_keys[real], True, params={"kid": "k%d" % i}))
                     return "ok", None, jws.serialize_json(members, b"c05", KeySet(keys), **kw)
@@ -318,7 +364,7 @@ def execute_op(node: Node, d: dict, state: dict):
                     from joserfc.jwk import KeySet
                     sigs, keys = [], []
                     for i, a in enumerate(algs):
-                        real = a if isinstance(a, str) and a in JWS_SUPPORTED else "HS256"
+                        real = a if isinstance(a, str) and a in JWS_SUPPORTED else related_real(a, JWS_SUPPORTED, "HS256")
                         rkey = node.jws_keys[real]
                         sigs.append((rjws.compact_json({"alg": a, "kid": "k%d" % i}), None, real, rkey))
                         keys.append(K.to_jose_fast(rkey if rkey.kty == "oct" else rkey.public(), rkey.kty == "oct", params={"kid": "k%d" % i}))
@@ -356,6 +402,7 @@ def execute_op(node: Node, d: dict, state: dict):
             skw_pub = {"sender_key": K.to_jose_fast(sender.public(), False)} if sender is not None else {}
             pubk = K.to_jose_fast(rkey if rkey.kty == "oct" else rkey.public(), rkey.kty == "oct")
             privk = K.to_jose_fast(rkey, True)
+            pubk, privk = _reentrant(node, pubk, d.get("reentrant")), _reentrant(node, privk, d.get("reentrant"))
             if op == "jwe.encrypt_compact":
                 return "ok", None, jwe.encrypt_compact(dict(prot, alg=a0), b"c05", pubk, **kw, **skw)
             if op == "jwt.encode.jwe":
@@ -387,12 +434,15 @@ def execute_op(node: Node, d: dict, state: dict):
 
 def _jwe_token(node, algs, enc, z, form, state):
     pt = b'{"sub":"c05"}'
-    ok_enc = enc if isinstance(enc, str) and enc in rjwe.ENCS else "A128GCM"
+    ok_enc = enc if isinstance(enc, str) and enc in rjwe.ENCS else related_real(enc, list(rjwe.ENCS), "A128GCM")
     rc = []
     for i, a in enumerate(algs):
-        real = a if isinstance(a, str) and a in rjwe.ALL_ALGS else "A128KW"
+        real = a if isinstance(a, str) and a in rjwe.ALL_ALGS else related_real(a, list(rjwe.ALL_ALGS), "A128KW")
         e2 = ok_enc if JW.enc_ok(real, ok_enc) else "A128CBC-HS256"
         rkey, sender = node.jwe_key(a, enc)
+        if real != a and real in rjwe.DIRECT and len(algs) > 1:
+            real = "A128KW"        # the peer cannot build a multi-recipient token around a direct mode
+            rkey, sender = node.jwe_key("A128KW", enc)
         hdr = {"alg": real, "kid": "r%d" % i} if form != "compact" else None
         rc.append(rjwe.Rcpt(real, rkey if rkey.kty == "oct" else rkey.public(), hdr, sender))
     prot = {"enc": ok_enc}
